@@ -590,9 +590,12 @@ def r_val_sib(E):
               ("construction", sa, rel, "check_belonging_to_authorized_values"),
               ("update", pc, rel2, "check_input_value_type_positivity_and_unit"),
               ("update", init, rel2, "check_belonging_to_authorized_values")]
+    from ..astutil import calls_through_helpers
     for path, fn, r, v in checks:
         res.instances += 1
-        calls = [c for c in ast.walk(fn) if isinstance(c, ast.Call) and isinstance(c.func, ast.Attribute) and c.func.attr == v]
+        finder = pm.helper_finder("ModelingObject" if path == "construction" else "ModelingUpdate")
+        is_v = lambda c: isinstance(c.func, ast.Attribute) and c.func.attr == v
+        calls = [c for c in calls_through_helpers(fn, finder, want=is_v) if is_v(c)]
         if not calls:
             res.findings.append(Finding("R-VAL-SIB", f"{path} path lacks {v}",
                                         f"the {path} path ({fn.name}) no longer calls {v}: values refused on one path are "
